@@ -13,6 +13,13 @@ pub mod thread_manager;
 
 use chrony_candm::reply::Tracking;
 
+/// Verification hooks (re-exports of private items), compiled only with `--cfg aws_clock_bound_verif`.
+#[cfg(aws_clock_bound_verif)]
+pub mod verif {
+    pub use crate::chrony_poller::verif_hooks as chrony_poller;
+    pub use crate::shm_writer::verif_hooks as shm_writer;
+}
+
 /// Type alias for i64 for error bound values retrieved from PHC sysfs interface.
 type PhcErrorBound = i64;
 
